@@ -188,12 +188,17 @@ func c16TextCSV(c statCase) (v vcase.Verdict) {
 		}
 		n, _ := strconv.Atoi(m[2])
 		csvWarnByLine[n] = append(csvWarnByLine[n], normWarning(m[3]))
-		if len(m[1]) == 1 {
-			k := [2]int{n, int(m[1][0] - 'A')}
-			csvWarnByCell[k] = append(csvWarnByCell[k], normWarning(m[3]))
-		} else {
+		// spreadsheet column letters: A..Z, AA..AZ, BA.. (bijective base 26)
+		colIdx := 0
+		for _, ch := range m[1] {
+			colIdx = colIdx*26 + int(ch-'A') + 1
+		}
+		colIdx--
+		if len(m[1]) > 1 {
 			csvWideRef[n] = true
 		}
+		k := [2]int{n, colIdx}
+		csvWarnByCell[k] = append(csvWarnByCell[k], normWarning(m[3]))
 	}
 	li := 0
 	next := func() (string, bool) {
@@ -527,8 +532,7 @@ func c16TextCSV(c statCase) (v vcase.Verdict) {
 				continue
 			}
 			if csvWideRef[line] {
-				v.Label("csv_reference_beyond_column_Z(not decoded)")
-				continue
+				v.Label("csv_reference_beyond_column_Z")
 			}
 			for col := 0; col < ncols; col++ {
 				for kind := 0; kind < 2; kind++ {
@@ -547,7 +551,7 @@ func c16TextCSV(c statCase) (v vcase.Verdict) {
 						if kind == 1 {
 							what = "comparison (vs base)"
 						}
-						fail("table %d row %q column %d %s: text footnotes %q, csv warnings for spreadsheet cell %c%d %q (all csv warnings of that line: %q)", ti, name, col, what, tw, 'A'+rune(csvStartCol(col)+2*kind), line, cw, csvWarnByLine[line])
+						fail("table %d row %q column %d %s: text footnotes %q, csv warnings for spreadsheet cell %s%d %q (all csv warnings of that line: %q)", ti, name, col, what, tw, sheetCol(csvStartCol(col)+2*kind), line, cw, csvWarnByLine[line])
 						return
 					}
 					if len(tw) > 0 {
@@ -582,3 +586,13 @@ func keysOf(m map[int]bool) []int {
 }
 
 func TestC16TextCSV(t *testing.T) { vcase.Run(t, "C16", "textcsv", genStatCase, c16TextCSV) }
+
+// sheetCol names a 0-based column the way spreadsheets do (A..Z, AA..).
+func sheetCol(i int) string {
+	name := ""
+	for i >= 0 {
+		name = string(rune('A'+i%26)) + name
+		i = i/26 - 1
+	}
+	return name
+}
